@@ -46,6 +46,23 @@ Theorem C03_replay_armed : forall o, has_pending_state o = true ->
   map le_pid (ob_rel (arm_replay o)) = map le_pid (ob_rel o).
 Proof. exact arm_replay_states. Qed.
 
+From Minimq Require Import Machine Run WireInv Wire Healthy Owed Replay.
+
+(* ---- the replay on the wire: after a resumed connect every pending PUBREL is written once, in the order of the
+   release list (= PUBREC order), after the owed acknowledgements and before the retained publishes — on any transport,
+   however it cuts the writes *)
+Theorem C03_replay_layout : forall o, replay_bytes o =
+  concat (map (fun e => ctl_bytes (ce_act e)) (ob_ctl o)) ++
+  concat (map (fun e => rel_bytes (le_pid e) (le_rc e)) (ob_rel o)) ++
+  concat (map (fun e => dup_bytes (sliceN (re_off e) (re_len e) (ob_buf o))) (ob_ret o)).
+Proof. exact replay_bytes_unfold. Qed.
+
+Theorem C03_pubrels_replayed_in_order : forall f1 f2 w w1 w1' w2,
+  Inv (w_sess w) -> op_connect f1 w = (w1, ODone 1) -> w_sess w1' = w_sess w1 ->
+  WInv (w_sess w1') -> PQ w1' -> flush_outbound f2 w1' = (w2, ODone tt) ->
+  w_wire w2 = w_wire w1' ++ replay_bytes (s_ob (w_sess w)) /\ next_step (s_ob (w_sess w2)) = None.
+Proof. exact reconnect_replays_any_transport. Qed.
+
 Print Assumptions C03_pubrec_atomic.
 Print Assumptions C03_release_has_room.
 Print Assumptions C03_failed_pubrec.
@@ -53,3 +70,5 @@ Print Assumptions C03_release_tail.
 Print Assumptions C03_pubcomp_keeps_order.
 Print Assumptions C03_served_in_order.
 Print Assumptions C03_replay_armed.
+Print Assumptions C03_replay_layout.
+Print Assumptions C03_pubrels_replayed_in_order.
